@@ -191,6 +191,7 @@ private def jAction : Action → Json
 private def jStrategy : Strategy → Json
   | .none => Json.str "none"
   | .single t => Json.mkObj [("single", jTy t)]
+  | .text => Json.str "text"
   | .union m => Json.mkObj [("union", jlist (fun e => Json.arr #[jstr e.1, jTy e.2]) m)]
   | .streamBytes => Json.str "streamBytes"
   | .streamNdjson => Json.str "streamNdjson"
